@@ -341,6 +341,14 @@ def g_opt(fn, edge):
             if good != bad and edge_dominates(fn, sb, good, edge.bb):
                 if not _reassigned_between(fn, sig, good, edge.bb, producers):
                     return True, "dominated by the %s edge of %s(%s)" % ("true" if (good == tt) else "false", short(nm), pretty_sig(sig))
+    # a boolean flag computed as the conjunction of is_some() tests:  let have_x = a.is_some() && b.is_some(); if have_x { a.unwrap() }
+    if not want_err:
+        for h, facts in _flag_facts(fn).items():
+            if sig in facts:
+                for (sb, tt, ft) in bool_branch(fn, h):
+                    if tt != ft and edge_dominates(fn, sb, tt, edge.bb) and not _reassigned_between(fn, sig, tt, edge.bb, producers):
+                        return True, "dominated by the true edge of flag `%s`, which is only true when is_some(%s) held" % (
+                            fn.local_name(h) or "_%d" % h, pretty_sig(sig))
     # discriminant switch on the same place
     good_variant = (1 if want_err else 0) if is_result else (0 if want_err else 1)
     for b in fn.reachable:
@@ -368,6 +376,50 @@ def g_opt(fn, edge):
                             return True, "dominated by the %s arm of a match on %s" % (
                                 ("Err" if good_variant else "Ok") if is_result else ("Some" if good_variant else "None"), pretty_sig(sig))
     return False, ""
+
+
+def _flag_facts(fn):
+    """bool local -> set of place signatures known to be Some/Ok whenever the flag is true"""
+    cached = getattr(fn, "_flagfacts", None)
+    if cached is not None:
+        return cached
+    out = {}
+    some_calls = [g for g in fn.calls if IS_SOME.match(g.path or "") and g.args]
+    for l, decl in enumerate(fn.locals):
+        if fn.ty(decl["ty"])["k"] != "bool":
+            continue
+        defs = fn.defs.get(l, [])
+        if len(defs) < 1 or len(defs) > 3:
+            continue
+        facts = None
+        ok = True
+        for (b, i, rv) in defs:
+            if i != "term":
+                if rv["k"] == "use" and const_int(rv["a"]) == 0:
+                    continue          # the `false` arm of a short-circuit &&
+                ok = False
+                break
+            c = fn.call_at(b)
+            if c is None or not IS_SOME.match(c.path or "") or not c.args:
+                ok = False
+                break
+            here = set()
+            s0, _ = resolve_place(fn, op_base(c.args[0]))
+            if s0:
+                here.add(s0)
+            for g in some_calls:
+                if g is c:
+                    continue
+                for (sb, tt, ft) in bool_branch(fn, g.dest[0]):
+                    if tt != ft and edge_dominates(fn, sb, tt, b):
+                        s1, _ = resolve_place(fn, op_base(g.args[0]))
+                        if s1:
+                            here.add(s1)
+            facts = here if facts is None else (facts & here)
+        if ok and facts:
+            out[l] = facts
+    fn._flagfacts = out
+    return out
 
 
 def _reassigned_between(fn, sig, start, end_bb, producers=()):
